@@ -90,6 +90,12 @@ Third round (other source files, table UNITS; one generated file per unit):
 Conventions (DESIGN 3): Python ints are Z; a shift count that depends on a parameter gets CPython's `ValueError: negative shift
 count` guard, a count built from object state and literals only is taken as non-negative (class invariant 0 <= prefixlen <=
 width); method parameters are ints unless declared otherwise in WHITELIST; every parameter of a module-level function is declared in FUNCS.
+SRCD (constructors, pickled state, the network parser of netaddr/ip/__init__.py -> coq/Gen/pysrc_ctor_gen.v, pysrc_parse_gen.v): the
+units of CTOR_UNITS are read by the subclass CtorFn of Fn in harness/gen/pysrc_ctor.py, whose docstring describes the added
+constructs (constructor state as locals with `super().__init__()` inlined, strategy modules represented by their version, tests
+decided by the declared type of the specialisation, `x is None` on optional values, general `try / except / else` as a match on the
+outcome, unrolled `for` over a literal tuple, the socket back-end as a leading parameter `be`).  Hooks here: Fn.prepare,
+Fn.initial_env, fn_class, UNIT_SEES / BY_OUT (an earlier unit over the same file whose definitions a unit may call).
 """
 import ast
 import os
@@ -205,6 +211,40 @@ STATEVARS = {"SubnetSplitter": (("_subnets", "set net"),)}
 # imported function -> (symbol, parameter types, result type); all of them can raise
 EXTERN = {"netaddr.ip.cidr_merge": ("py_cidr_merge", ("list net",), "list net")}
 
+# ---- SRCD: constructors, pickled state and the network parser of netaddr/ip/__init__.py: two more units over IPFILE.  The
+# constructs they add are read by class CtorFn of harness/gen/pysrc_ctor.py (see its docstring); `"m:variant"` = the method
+# specialised to the declared parameter types: int | str | obj (an IPAddress object) | net | optint | tup2 / tup3 (a tuple of ints)
+_CTOR_ARGS = {"version": "optint", "flags": "int"}
+CTOR_UNITS = [
+    (IPFILE, "pysrc_ctor_gen.v", "", " Base.PyStr Model.SrcPreludeStr Model.AddrText Model.SrcPreludeCtor Gen.pysrc_gen",
+     [("IPAddress", "__init__:int", dict(_CTOR_ARGS, addr="int")), ("IPAddress", "__init__:copy", dict(_CTOR_ARGS, addr="obj")),
+      ("IPAddress", "__init__:str", dict(_CTOR_ARGS, addr="str")), ("IPAddress", "__str__", {}),
+      # pickled state (a state is the tuple of ints that __getstate__ made) and the IPRange constructor
+      ("IPAddress", "value", {}), ("IPAddress", "__getstate__", {}), ("IPAddress", "__setstate__", {"state": "tup2"}),
+      ("IPNetwork", "__getstate__", {}), ("IPNetwork", "__setstate__", {"state": "tup3"}),
+      ("IPRange", "__getstate__", {}), ("IPRange", "__setstate__", {"state": "tup3"}),
+      ("IPRange", "__init__:int", {"start": "int", "end": "int", "flags": "int"}),
+      ("IPRange", "__init__:str", {"start": "str", "end": "str", "flags": "int"}),
+      # the netmask setter (SKIP says why Fn cannot read it), specialised to an int and to an IPAddress argument
+      ("IPNetwork", "netmask.setter:int", {"value": "int"}), ("IPNetwork", "netmask.setter:addr", {"value": "obj"})]),
+    # the network parser and the IPNetwork constructor, specialised to the kind of `addr`: a tuple of ints | text | an IPNetwork
+    # object | an IPAddress object | an int (standing for every other type); text renderings
+    (IPFILE, "pysrc_parse_gen.v", "", " Base.PyStr Model.SrcPreludeStr Model.AddrText Model.SrcPreludeCtor Gen.pysrc_gen Gen.pysrc_ctor_gen",
+     [(None, "cidr_abbrev_to_verbose.classful_prefix:int", {"octet": "int"}),
+      (None, "cidr_abbrev_to_verbose.classful_prefix:str", {"octet": "str"}),
+      (None, "cidr_abbrev_to_verbose", {"abbrev_cidr": "str"})] +
+     [(None, "parse_ip_network:" + v, {"module": "mod", "addr": t, "implicit_prefix": "bool", "flags": "int"})
+      for v, t in (("tuple", "inttuple"), ("str", "str"), ("int", "int"))] +
+     [("IPNetwork", "__init__:" + v, {"addr": t, "implicit_prefix": "bool", "version": "optint", "flags": "int"})
+      for v, t in (("tuple", "inttuple"), ("str", "str"), ("net", "net"), ("addr", "obj"), ("int", "int"))] +
+     [("IPNetwork", "__str__", {})]),
+]
+CTOR_FN_UNITS = tuple(u[1] for u in CTOR_UNITS)      # units whose functions are read by CtorFn
+UNITS += CTOR_UNITS
+FILES = FILES + CTOR_FN_UNITS
+UNIT_SEES = {"pysrc_parse_gen.v": ("pysrc_ctor_gen.v",)}     # unit -> earlier units over the same source file whose definitions it may call
+BY_OUT = {}                             # output file -> its translator (filled by Translator.__init__)
+
 EXN = ("AddrFormatError", "AddrConversionError", "ValueError", "TypeError", "IndexError", "KeyError", "StructError",
        "NotRegisteredError", "AttributeError", "OverflowError")
 RESERVED = set("ver w v p s e in let if then else match with end fun forall exists as return at do fix cofix for using "
@@ -252,7 +292,7 @@ def bad(node, why, fn=None):
 
 def mangle(recv, name, prefix=""):
     name, _, variant = name.partition(":")          # "method:variant" = a specialisation of the method (see UNITS)
-    return ("src_%s_%s" % (recv, name.strip("_")) if recv else "src_%s%s" % (prefix, name)) + ("_" + variant if variant else "")
+    return ("src_%s_%s" % (recv, name.strip("_").replace(".", "_")) if recv else "src_%s%s" % (prefix, name.replace(".", "_"))) + ("_" + variant if variant else "")
 
 
 def dotted(node):
@@ -571,6 +611,7 @@ class Fn:
         self.statevars, self.mutating, self.valued = [], False, True
         if recv in STATEVARS:
             self.f = self.state_as_locals(self.f)
+        self.f = self.prepare(self.f)                    # hook (identity here; CtorFn: constructor state as locals)
         a = self.f.args
         if a.vararg or a.kwarg or a.kwonlyargs or a.posonlyargs or (recv is not None and (not a.args or a.args[0].arg != "self")):
             bad(self.f, "unsupported signature")
@@ -620,8 +661,15 @@ class Fn:
         body = self.f.body
         if body and isinstance(body[0], ast.Expr) and isinstance(body[0].value, ast.Constant) and isinstance(body[0].value.value, str):
             body = body[1:]
+        env = self.initial_env(env)                      # hook (identity here; CtorFn: declared tuple / object parameters)
         self.ir = self.block(body, env, lambda e: self.leaf(e, "none", None), [])
         self.finish()
+
+    def prepare(self, f):
+        return f
+
+    def initial_env(self, env):
+        return env
 
     # ---- object state read and written like locals (STATEVARS)
     def method_mutates(self, name, seen=()):
@@ -1936,6 +1984,69 @@ class Fn:
 
 BY_MODULE = {}      # dotted module name -> the first translator made for its file (filled by generate())
 
+# ---- SRCD: the units of CTOR_FN_UNITS are read by the subclass CtorFn of Fn (harness/gen/pysrc_ctor.py); every other unit by Fn
+_is_value_base = is_value
+
+
+def is_value(t):
+    return t in ("mod", "optstr", "inttuple") or _is_value_base(t)
+
+
+COQTY.update({"mod": "Z", "optstr": "(option string)", "inttuple": "(list Z)"})
+RESERVED |= set("be backend py_catch_all py_str_to_int py_int_to_str contains_char exn_eqb split join split1 py_split1_pair Platform Fallback "
+                "py_expand_partial_address py_prefix_to_netmask py_netmask_to_prefix py_prefix_to_hostmask py_hostmask_to_prefix "
+                "py_list_head fmt_d append length".split())
+
+
+_function_base = Module.function
+
+
+def _function(self, name):
+    """`outer.inner`: the def `inner` nested directly in the module-level function `outer` -- bound once there, undecorated, and
+    closure-free (it reads no parameter or local of `outer`), so that it can be translated like a module-level function"""
+    if "." not in name:
+        return _function_base(self, name)
+    outer, inner = name.split(".", 1)
+    f = _function_base(self, outer)
+    ds = [n for n in ast.walk(f) if n is not f and ((isinstance(n, (ast.FunctionDef, ast.ClassDef, ast.Lambda)) and getattr(n, "name", "") == inner)
+                                                     or (isinstance(n, ast.Name) and n.id == inner and isinstance(n.ctx, ast.Store)))]
+    g = ds[0] if len(ds) == 1 else None
+    if not isinstance(g, ast.FunctionDef) or g not in f.body or g.decorator_list:
+        bad(g or f, "%s is not bound exactly once, by a plain def directly inside %s" % (inner, outer))
+    mine = {a.arg for a in g.args.args} | {n.id for n in ast.walk(g) if isinstance(n, ast.Name) and isinstance(n.ctx, ast.Store)}
+    theirs = {a.arg for a in f.args.args} | {n.id for st in f.body if st is not g for n in ast.walk(st)
+                                             if isinstance(n, ast.Name) and isinstance(n.ctx, ast.Store)} | {inner}
+    if any(isinstance(n, ast.Name) and isinstance(n.ctx, ast.Load) and n.id in theirs - mine for n in ast.walk(g)) or any(
+            isinstance(n, (ast.Global, ast.Nonlocal)) for n in ast.walk(g)):
+        bad(g, "inner function %s reads a name of %s (a closure)" % (inner, outer))
+    return g
+
+
+Module.function = _function
+_lookup_base = Module.lookup
+
+
+def _lookup(self, cls, name):
+    """`attr.setter`: the def decorated `@attr.setter` in the body of class `cls` (the only one), as a plain method"""
+    if not name.endswith(".setter"):
+        return _lookup_base(self, cls, name)
+    c, attr = self.classes.get(cls), name[:-7]
+    fs = [f for f in (c.body if c else []) if isinstance(f, ast.FunctionDef) and f.name == attr
+          and [dotted(d) for d in f.decorator_list] == [name]]
+    if len(fs) != 1 or _lookup_base(self, cls, attr) is None or not _lookup_base(self, cls, attr)[2] or _lookup_base(self, cls, attr)[0] != cls:
+        bad(fs[-1] if fs else c, "%s.%s is not exactly one def decorated @%s next to its property" % (cls, attr, name))
+    return cls, fs[0], False
+
+
+Module.lookup = _lookup
+
+
+def fn_class(out):
+    if out in CTOR_FN_UNITS:
+        from harness.gen import pysrc_ctor
+        return pysrc_ctor.CtorFn
+    return Fn
+
 
 class Translator:
     """all translated definitions of one source file (`out` None: netaddr/ip/__init__.py with WHITELIST + FUNCS)"""
@@ -1945,6 +2056,7 @@ class Translator:
         self.specs = WHITELIST + FUNCS if specs is None else specs
         self.done, self.order, self.failed, self.active, self.consts = {}, [], {}, [], {}
         BY_MODULE.setdefault(re.sub(r"(/__init__)?\.py$", "", fn).replace("/", "."), self)
+        BY_OUT[out] = self
         CURFILE.append(fn)
         try:
             self.mod = Module(fn)
@@ -2067,6 +2179,9 @@ class Translator:
         if recv is not None and self.modof(recv) is not self.mod:
             return self.parent.get(recv, name, node)
         if self.parent is not None and self.parent.fn == self.fn and not any(w[:2] == key for w in self.specs):
+            for o in UNIT_SEES.get(self.out, ()):           # .. or an earlier unit's that this unit is declared to see
+                if o in BY_OUT and BY_OUT[o].fn == self.fn and any(w[:2] == key for w in BY_OUT[o].specs):
+                    return BY_OUT[o].get(recv, name, node)
             return self.parent.get(recv, name, node)        # a second unit over the same file: everything else is the first one's
         if key in self.failed:
             bad(node, "depends on untranslatable %s" % self.mangle(*key))
@@ -2079,7 +2194,7 @@ class Translator:
             self.active.append(key)
             CURFILE.append(self.fn)
             try:
-                d = Fn(self, recv, name, spec[0][2])
+                d = fn_class(self.out)(self, recv, name, spec[0][2])
                 d.body_text = d.text()          # also resolves every list type: fail here, scoped to this definition
             except Untranslatable as e:
                 self.failed[key] = str(e)
